@@ -76,7 +76,8 @@ fn build_route(spec: &Spec, cfg: &RouterConfig) -> Built {
     let mut cq_headers = Vec::new();
     for h in j["headers"].as_array().unwrap() {
         let name = h["name"].as_str().unwrap().to_string();
-        let val = h["value"].as_str().unwrap_or("").to_string();
+        // Rule::headers lower-cases the condition value when header case is ignored (match_regex: the flag goes to the marker string)
+        let val = { let v = h["value"].as_str().unwrap_or("").to_string(); if cfg.ignore_header_case && h["kind"] != "match_regex" { v.to_lowercase() } else { v } };
         let (kind, cq) = match h["kind"].as_str().unwrap() {
             "is_defined" => (RouteHeaderKind::IsDefined, "IsDefined".to_string()),
             "is_not_defined" => (RouteHeaderKind::IsNotDefined, "IsNotDefined".to_string()),
@@ -174,7 +175,8 @@ fn build_request(p: &Value, cfg: &RouterConfig) -> (Request, String) {
     let mut req = Request::from_config(cfg, path.to_string(), p["host"].as_str().map(|s| s.to_string()),
         p["scheme"].as_str().map(|s| s.to_string()), p["method"].as_str().map(|s| s.to_string()), None, None);
     req.created_at = None;
-    for h in p["headers"].as_array().unwrap() { req.headers.push(Header { name: h[0].as_str().unwrap().into(), value: h[1].as_str().unwrap().into() }); }
+    // Request::add_header lower-cases the VALUE when header case is ignored
+    for h in p["headers"].as_array().unwrap() { req.add_header(h[0].as_str().unwrap().into(), h[1].as_str().unwrap().into(), cfg.ignore_header_case); }
     let mut cq_addr = "None".to_string();
     if let Some(a) = p["addr"].as_str() {
         let ip: std::net::IpAddr = a.parse().unwrap();
@@ -341,7 +343,7 @@ const PATH_TEMPLATES: &[(&str, &str)] = &[("/x/@m", "[0-9]+"), ("/blog/@m", "[a-
 const HOST_TEMPLATES: &[(&str, &str)] = &[("@m.a.com", "[a-z]+"), ("@m.com", "(?:a|b)"), ("www.@m", ".+"), ("Shop-@m.a.com", "[a-z]+")];
 const METHODS: &[&str] = &["GET", "POST", "PUT"];
 const HNAMES: &[&str] = &["X-A", "x-a", "Accept"];
-const HVALS: &[&str] = &["1", "abc", "text/html", "ab"];
+const HVALS: &[&str] = &["1", "abc", "text/html", "ab", "ABC", "Text/HTML"];
 const CIDRS: &[&str] = &["10.0.0.0/8", "10.1.0.0/16", "192.168.1.0/24", "0.0.0.0/0", "::1/128", "10.1.2.3/32"];
 const ADDRS: &[&str] = &["10.1.2.3", "10.0.0.1", "192.168.1.7", "8.8.8.8", "::1", "10.255.255.255"];
 const TIMES: &[&str] = &["2024-03-04T10:00:00Z", "2024-03-04T12:00:00Z", "2024-03-05T00:00:00Z", "2024-03-09T23:59:59Z", "2023-12-31T23:59:59.999999999Z", "1969-12-31T23:00:00Z"];
@@ -382,16 +384,16 @@ fn gen_route(rng: &mut Rng, id: &str) -> Value {
 fn gen_probe(rng: &mut Rng) -> Value {
     let path = if rng.chance(2, 3) { rng.pick(PATHS).to_string() } else { rng.pick(&["/x/12", "/blog/post-b", "/x9", "/zzz", "/X", "/BLOG/42", "/blog/7", "/Blog/7"]).to_string() };
     let host: Value = match rng.below(8) { 0 => Value::Null, 1 => json!("foo.a.com"), 2 => json!("www.b.com"), 3 => json!("shop-x.a.com"), 4 => json!("Shop-x.a.com"), 5 => json!(*rng.pick(&["FOO.a.com", "shop.a.com", "WWW.B.com", "A.com"])), _ => json!(*rng.pick(HOSTS)) };
-    let scheme: Value = match rng.below(4) { 0 => Value::Null, 1 => json!("http"), _ => json!("https") };
+    let scheme: Value = match rng.below(6) { 0 => Value::Null, 1 => json!("http"), 2 => json!(*rng.pick(&["HTTPS", "Https", "HTTP"])), _ => json!("https") };
     let method: Value = match rng.below(4) { 0 => Value::Null, _ => json!(*rng.pick(METHODS)) };
     let nh = rng.below(3);
-    let headers: Vec<Value> = (0..nh).map(|_| json!([*rng.pick(HNAMES), *rng.pick(&["1", "abc", "text/html", "aab", "xabc"])])).collect();
+    let headers: Vec<Value> = (0..nh).map(|_| json!([*rng.pick(HNAMES), *rng.pick(&["1", "abc", "text/html", "aab", "xabc", "ABC", "xABC", "Text/HTML"])])).collect();
     let addr: Value = if rng.chance(2, 3) { json!(*rng.pick(ADDRS)) } else { Value::Null };
     let time: Value = if rng.chance(2, 3) { json!(*rng.pick(TIMES)) } else { Value::Null };
     json!({"path": path, "host": host, "scheme": scheme, "method": method, "headers": headers, "addr": addr, "time": time})
 }
 
-fn gen_cfg(rng: &mut Rng) -> Value { json!({"ic_host": rng.chance(1, 3), "ic_path": rng.chance(1, 3), "ic_header": false, "always": rng.chance(1, 2)}) }
+fn gen_cfg(rng: &mut Rng) -> Value { json!({"ic_host": rng.chance(1, 3), "ic_path": rng.chance(1, 3), "ic_header": rng.chance(1, 3), "always": rng.chance(1, 2)}) }
 
 /// routes sharing header conditions from a small pool (groups of the header matcher overlap), few other triggers
 fn header_focus(rng: &mut Rng, routes: &mut Vec<Value>, probes: &mut Vec<Value>) {
@@ -410,7 +412,7 @@ fn header_focus(rng: &mut Rng, routes: &mut Vec<Value>, probes: &mut Vec<Value>)
     }
     for p in probes.iter_mut() {
         let nh = rng.below(4);
-        let hs: Vec<Value> = (0..nh).map(|_| json!([*rng.pick(&["X-A", "X-B", "X-C", "Accept"]), *rng.pick(&["1", "abc", "text/html", "ab"])])).collect();
+        let hs: Vec<Value> = (0..nh).map(|_| json!([*rng.pick(&["X-A", "X-B", "X-C", "Accept"]), *rng.pick(&["1", "abc", "text/html", "ab", "ABC", "xAb"])])).collect();
         p["headers"] = json!(hs);
         if rng.chance(2, 3) { p["path"] = json!("/x"); }
     }
@@ -418,8 +420,9 @@ fn header_focus(rng: &mut Rng, routes: &mut Vec<Value>, probes: &mut Vec<Value>)
 
 /// one trigger kind at a time: every route keeps only that trigger (and the path /x), every probe asks for /x, so that
 /// the outcome is decided by that trigger alone (method lists and exclusion, ip ranges, date/time windows, weekdays, scheme, host)
-fn trigger_focus(rng: &mut Rng, routes: &mut Vec<Value>, probes: &mut Vec<Value>) {
-    let kind = *rng.pick(&["methods", "ips", "dt", "time", "wd", "scheme", "host"]);
+fn trigger_focus(rng: &mut Rng, routes: &mut Vec<Value>, probes: &mut Vec<Value>, trace: bool) {
+    // with traces on, the matchers that keep a per-request memo of evaluated conditions (datetime) get more weight
+    let kind = if trace && rng.chance(1, 2) { "dt" } else { *rng.pick(&["methods", "ips", "dt", "time", "wd", "scheme", "host"]) };
     for r in routes.iter_mut() {
         let fresh = gen_route(rng, "tmp");
         for k in ["methods", "excl", "ips", "dt", "time", "wd", "scheme", "host"] { r[k] = Value::Null; }
@@ -428,7 +431,17 @@ fn trigger_focus(rng: &mut Rng, routes: &mut Vec<Value>, probes: &mut Vec<Value>
         match kind {
             "methods" => { r["methods"] = match rng.below(4) { 0 => json!(["GET"]), 1 => json!(["GET", "POST"]), 2 => json!(["PUT"]), _ => json!([*rng.pick(METHODS)]) }; r["excl"] = match rng.below(3) { 0 => json!(true), 1 => json!(false), _ => Value::Null }; }
             "ips" => { let n = 1 + rng.below(2); let mut used: Vec<&str> = Vec::new(); let mut v = Vec::new(); for _ in 0..n { let c = *rng.pick(CIDRS); if used.contains(&c) { continue; } used.push(c); v.push(json!({"in": rng.chance(2, 3), "cidr": c})); } r["ips"] = json!(v); }
-            "dt" => { let a = rng.below(TIMES.len()); let b = rng.below(TIMES.len()); r["dt"] = json!([[if rng.chance(3, 4) { json!(TIMES[a.min(b)]) } else { Value::Null }, if rng.chance(3, 4) { json!(TIMES[a.max(b)]) } else { Value::Null }]]); }
+            "dt" => {
+                // the datetime matcher groups routes by their SET of conditions (date ranges, time ranges, weekdays): draw each
+                // condition from a pool of two so that groups share conditions, some true and some false for the probes
+                let dts = [json!([["2024-03-04T10:00:00Z", "2024-03-05T00:00:00Z"]]), json!([["2024-03-04T12:00:00Z", null], [null, "2023-12-31T23:59:59.999999999Z"]])];
+                let times = [json!([["09:00:00", "11:00:00"]]), json!([["10:00:00", "23:59:59"]])];
+                let wds = [json!(["Mon", "Tue"]), json!(["Sat", "Sun"])];
+                let mut any = false;
+                if rng.chance(2, 3) { r["dt"] = rng.pick(&dts).clone(); any = true; }
+                if rng.chance(1, 2) { r["time"] = rng.pick(&times).clone(); any = true; }
+                if rng.chance(1, 2) || !any { r["wd"] = rng.pick(&wds).clone(); }
+            }
             "time" => { r["time"] = if rng.chance(1, 3) { json!([["09:00:00", "11:00:00"], ["22:00:00", "23:59:59"]]) } else { json!([[*rng.pick(&["09:00:00", "10:00:00", "00:00:00"]), *rng.pick(&["10:00:00", "12:00:00", "23:59:59"])]]) }; }
             "wd" => { r["wd"] = json!([*rng.pick(DAYS), *rng.pick(DAYS)]); }
             "scheme" => { r["scheme"] = fresh["scheme"].clone(); }
@@ -445,7 +458,7 @@ pub fn gen_case_c01(rng: &mut Rng, trace: bool) -> Value {
     let ops: Vec<Value> = (0..n).map(|i| json!({"op": "ins", "r": i})).collect();
     let mut routes = routes;
     let mut probes: Vec<Value> = (0..4).map(|_| gen_probe(rng)).collect();
-    match rng.below(6) { 0 | 1 => header_focus(rng, &mut routes, &mut probes), 2 | 3 => trigger_focus(rng, &mut routes, &mut probes), _ => {} }
+    match rng.below(6) { 0 | 1 => header_focus(rng, &mut routes, &mut probes), 2 | 3 => trigger_focus(rng, &mut routes, &mut probes, trace), _ => {} }
     // observe only at the end: keep a single observation by making every op but the last invisible is not possible, so observe all
     json!({"cfg": gen_cfg(rng), "routes": routes, "ops": ops, "probes": probes, "trace": trace})
 }
